@@ -267,6 +267,10 @@ use std::{
 
 #[paw::main]
 fn main(args: Args) {
+    #[cfg(all(feature = "verif-hooks", feature = "interactive-tui"))]
+    if let Ok(script) = std::env::var("VERIF_TUI_SCRIPT") {
+        process::exit(tui::verif::run_script_file(&script));
+    }
     let temp_path = std::env::temp_dir().join("2a-emulator.log");
     initialize_logger(&args, &temp_path).expect("Failed to initialize logger");
     register_panic_logger();
